@@ -260,6 +260,20 @@ class Facts:
                     return f
         return fs[0]
 
+    def in_file(self, suffix):
+        """every function definition (all overloads, all same-named statics of different units) whose file ends with suffix"""
+        self._index()
+        out = []
+        seen = set()
+        for q, fs in sorted(self._funcs.items()):
+            for f in fs:
+                if f.get('body') is not None and f['file'].endswith(suffix):
+                    k = (q, f.get('sig'), f['file'], f['line'])
+                    if k not in seen:
+                        seen.add(k)
+                        out.append(f)
+        return out
+
     def overloads(self, q):
         """distinct definitions (by signature) that share this qualified name"""
         self._index()
